@@ -363,6 +363,7 @@ func (c *Check) prepareReplays(runs []*harnessRun) {
 		// distinct violation signatures (up to 6 each harness)
 		seen := map[string]int{}
 		var oks []*gosym.PathResult
+		nBudget := 0
 		for _, r := range hr.ex.Results {
 			switch r.Kind {
 			case "violation":
@@ -382,6 +383,16 @@ func (c *Check) prepareReplays(runs []*harnessRun) {
 				seen[sig]++
 				if seen[sig] <= 2 && len(seen) <= 8 {
 					hr.replays = append(hr.replays, &replayCase{res: r, purpose: "violation"})
+				}
+			case "budget":
+				// a path that exceeded a loop/step bound: if the real build does not
+				// finish on the same inputs either, it is a hang of the code under test
+				if hr.def.labelIs("hang", c.Prop) && nBudget < 2 {
+					nBudget++
+					cp := *r
+					cp.Kind, cp.Label = "violation", "hang"
+					cp.Msg = "engine bound exceeded (" + r.Label + " " + r.Msg + "); native run must not finish either"
+					hr.replays = append(hr.replays, &replayCase{res: &cp, purpose: "violation"})
 				}
 			case "ok":
 				if r.Model != nil || len(r.Observes) > 0 {
